@@ -107,7 +107,41 @@ def make_flow(ctx, count):
             net1 = G.Net(rng, cfg1["mac"])
             s.iface(1, **H.iface_kw(cfg1))
             s.frame(1, G.f_discover(rng, net1, m=0, ack=False, nstations=1, tos=0), op="W")
-        for _ in range(rng.randint(30, 90)):
+        keepalive = i % 8 == 3 and not degraded
+        if keepalive:
+            # several mappers' sessions of different age; one of them keeps being refreshed by its mapper's repeated Discovers
+            # (a few seconds apart, so the 30 s silence rule never fires) for more than a minute, the others fall silent:
+            # each session leaves the table 60 s after *its* last Discover, whatever the others do
+            order = rng.sample(range(len(net.mappers)), rng.choice([2, 2, 3]))
+            acks = [rng.random() < 0.6 for _ in order]
+            gens = [rng.choice([1, 2, 7]) for _ in order]
+            keep = rng.randrange(len(order))
+            if rng.random() < 0.7:
+                acks[keep] = True                      # usually the surviving session is complete: no Hello is due once the others are gone
+
+            def disc(j):
+                fr = G.f_discover(rng, net, m=order[j], ack=acks[j], nstations=rng.choice([1, 2]), gen=gens[j], tos=0)
+                s.frame(0, fr, op="W")
+                ops.append(("W", fr[15], fr[17], (fr[24:30], int.from_bytes(fr[32:34], "big"))))
+
+            def ticks(n):
+                if shadow:
+                    s.add("KR 0 %d 100 1" % n)
+                    ops.append(("KR", n, 100, 1))
+                else:
+                    s.add("KR 0 %d 100" % n)
+                    ops.append(("KR", n, 100))
+            for j in range(len(order)):
+                disc(j)
+                ticks(rng.choice([1, 10, 11, 25]))
+            for _ in range(rng.randint(22, 40)):
+                ticks(rng.choice([10, 20, 30, 40, 45]))
+                disc(keep)
+                if rng.random() < 0.1:
+                    fr = G.f_hello(rng, net)
+                    s.frame(0, fr, op="W")
+                    ops.append(("W", fr[15], fr[17], None))
+        for _ in range(0 if keepalive else rng.randint(30, 90)):
             r = rng.random()
             if r < 0.4:
                 n = rng.choice([1, 3, 10, 30, 60, 320, 650])
@@ -141,7 +175,7 @@ def make_flow(ctx, count):
                     fr = G.f_misc(rng, net)
                 s.frame(0, fr, op="W")
                 ops.append(("W", fr[15], fr[17], (fr[24:30], int.from_bytes(fr[32:34], "big")) if len(fr) >= 36 else None))
-        s.meta = dict(ops=ops, kind="flow", now=now, shadow=shadow, degraded=degraded)
+        s.meta = dict(ops=ops, kind="flow", now=now, shadow=shadow, degraded=degraded, keepalive=keepalive)
         scns.append(s)
     return scns
 
@@ -243,7 +277,12 @@ def monitor(scn, sobj, rep, sf, ck):
             callbacks += 1
             checked += 1
             if not book_unknown:
-                if any(not e["complete"] for e in book.values()):
+                # a session that has not been heard from for more than 60 s is removed by the tick before it decides about the
+                # Hello (62 s here: the table counts in whole seconds)
+                live = {k: e for k, e in book.items() if now - e["last"] < 62000}
+                if len(live) < len(book) and any(not e["complete"] for e in book.values()):
+                    seen.add("hello-decision-with-an-expired-incomplete-session-in-the-book")
+                if any(not e["complete"] for e in live.values()):
                     seen.add("hello-with-a-booked-incomplete-session")
                 else:
                     bad("hello-although-every-session-since-the-last-clear-is-complete-or-gone",
@@ -329,6 +368,8 @@ def monitor(scn, sobj, rep, sf, ck):
     rep.count("callbacks_" + sobj.meta["kind"], callbacks)
     for x in seen:
         rep.count("reach:" + x)
+    if sobj.meta.get("keepalive") and callbacks:
+        rep.count("histories_with_one_session_kept_alive_for_more_than_a_minute")
     if callbacks >= 2:
         rep.nontrivial((scn.sid, callbacks, tuple(sorted(seen))))
     if callbacks and len(rep.samples) < 3:
@@ -352,6 +393,7 @@ def run(ctx):
     c = rep.counters
     rep.need("callbacks", c.get("callbacks", 0), 1000)
     rep.need("callbacks_flow", c.get("callbacks_flow", 0), 200)
+    rep.need("histories_with_one_session_kept_alive_for_more_than_a_minute", c.get("histories_with_one_session_kept_alive_for_more_than_a_minute", 0), 20)
     rep.need("ticks_beside_a_second_interface", c.get("ticks_beside_a_second_interface", 0), 1000)
     for name in ("hello-late-in-the-silence-without-timer-block", "hello-with-a-booked-incomplete-session", "hello-late-in-the-silence", "suppressed-by-min-interval", "emptied-by-30s-inactivity", "emptied-by-60s-expiry", "pausing>wait",
                  "wait>quiescent", "paced-at-min-interval"):
